@@ -21,18 +21,26 @@ class C04(Prop):
     LEAN_MODULES = ["Proofs.C04"]
     PARALLEL = 16
     THEOREMS = [
-        "PylifeVerif.C04.memory3_symmetric",
+        # about the model of the code as it is (`twoPass`)
+        "PylifeVerif.C04.memory3_symmetric_code",
+        "PylifeVerif.C04.pass2_all_closed_code",
+        "PylifeVerif.C04.pass2_eq_periodicRainflow_partial",
+        "PylifeVerif.C04.pass2_eq_periodicRainflow_fails_at_witness",
+        "PylifeVerif.C04.twoPass_eq_twoPassR",
+        "PylifeVerif.C04.hcm_insert_nonreversal_interior_code",
+        "PylifeVerif.C04.hcm_append_nonreversal_code",
+        # about the repaired variant (`twoPassR`: first-run flush decided on the sequence actually continued)
+        "PylifeVerif.C04.pass2_eq_periodicRainflow",
         "PylifeVerif.C04.pass2_all_closed",
         "PylifeVerif.HCM.flush_of_twoDistinct",
-        "PylifeVerif.C04.hcm_insert_nonreversal_interior",
-        "PylifeVerif.C04.hcm_append_nonreversal",
+        # about the specification
         "PylifeVerif.C04.periodicRainflow_insert",
         "PylifeVerif.C04.periodicRainflow_rotate",
         "PylifeVerif.C04.prf_rotate",
         "PylifeVerif.C04.cyclicReversals_insert",
         "PylifeVerif.C04.cyclicReversals_rotate",
     ]
-    PARTIAL = {"PylifeVerif.C04.pass2_eq_periodicRainflow": "the end-to-end statement 'pass-2 load ranges are a permutation of Spec.periodicRainflow' is being proved (prover at work); until it is listed under theorems it is decided by the correspondence + reference oracle only (test, not proof)"}
+    PARTIAL = {"PylifeVerif.C04.pass2_eq_periodicRainflow_partial": "for the code as it is, 'pass 2 = closed cycles of the repeated sequence' is proved under the decidable guard C04.FirstRunFlushes (the first run flushes its last sample); without it the statement is refuted in the kernel at [500,200,400,100] (pass2_eq_periodicRainflow_fails_at_witness) - the open known finding first-run-defers-last-sample. The full statement is proved for the repaired variant twoPassR (pass2_eq_periodicRainflow), and twoPass = twoPassR under the guard (twoPass_eq_twoPassR)."}
     RULE = ("case = load sequence (>= 2 distinct values) for one assessment point with an exact stub notch law; quick: all sequences over "
             "5 load levels up to length 5 + seeded random sequences (<= 14 samples, 9 levels / dyadic non-integers) incl. refinements by "
             "non-reversal samples; junction classes are tagged and counted; non-trivial = pass 2 records at least one hysteresis; distinct by sequence")
@@ -208,4 +216,7 @@ def junction_class(s):
 
 
 def junction_failure_class(s):
+    if not hcm.first_run_flushes(s):
+        # open known finding: the first run defers its last sample to the second run
+        return "first-run-defers-last-sample"
     return "junction-last-not-periodic-reversal" if not last_is_periodic_reversal(s) else "pass2-not-periodic-rainflow"
